@@ -169,7 +169,13 @@ def _per_group_zero_bits(ctx):
         for a in (b.ext or []):
             if isinstance(a, asn.Group):
                 present = [m for m in a.members if m.name in n.value]
-                if present and all(common.zero_width(ctx.spec, m.ty, n.r.mod) for m in present):
+
+                def no_bits(m):
+                    if common.zero_width(ctx.spec, m.ty, n.r.mod):
+                        return True
+                    # a DEFAULT member given its default value is encoded as absent
+                    return m.has_default and n.value[m.name] == m.default
+                if present and all(no_bits(m) for m in present):
                     return True
     return False
 
@@ -313,3 +319,35 @@ def _c19_set_recursive(ctx):
     except Exception:
         return False
     return _set_with_recursive_member(a) or _set_with_recursive_member(o)
+
+
+def _xer_recursive_of_element(spec):
+    from . import arrange
+    for m in spec.modules:
+        for name, t in m.types:
+            for n in t.walk():
+                if n.kind in ('SEQUENCE OF', 'SET OF') and n.elem.kind == 'REF':
+                    try:
+                        k = asn.base_kind(spec, n.elem, m.name)
+                    except Exception:
+                        continue
+                    if k in ('CHOICE', 'ENUMERATED', 'BOOLEAN', 'NULL') and \
+                            (m.name, name) in arrange.reachable(spec, m.name, n.elem.ref):
+                        return True
+    return False
+
+
+@finding('C07', 'xer-recursive-of-element')
+def _c07_xer_recursive(ctx):
+    # xer.py Recursive has no encode_of/decode_of: a CHOICE/ENUMERATED/BOOLEAN/NULL element of SEQUENCE OF
+    # that is reached through a *recursive* reference is wrapped in an extra element, so the XML differs
+    # between a version where the reference is recursive and one where it is not
+    if ctx.codec != 'xer':
+        return False
+    from . import jsonio
+    try:
+        s1 = jsonio.spec_dec(ctx.case['spec'])
+        s2 = jsonio.spec_dec(ctx.case['spec2'])
+    except Exception:
+        return False
+    return _xer_recursive_of_element(s1) != _xer_recursive_of_element(s2)
